@@ -115,6 +115,19 @@ impl LibCase {
             "{} tasks x {} x Mnemonic::random(English, {})",
             self.tasks, self.calls, self.length
         );
+        if !self.e3 && (!h.panics.is_empty() || h.end != "exit") {
+            // E2 shares one OS thread (and its real thread-locals) between all tasks and cannot see
+            // real std locks: a panic or a hang of the library scenario there is only believed if
+            // real threads under the shim's scheduler show one too (cf. NewCase)
+            let mut c = self.clone();
+            c.e3 = true;
+            if c.sched.policy == "trace" || c.sched.policy == "pct" || c.sched.policy == "stall" {
+                c.sched = SchedSpec { policy: "random".into(), seed: c.sched.seed, param: 0, horizon: 64, trace: vec![] };
+            }
+            let mut r = c.run(ctx, dir)?;
+            r.probe("lib_e2_c17_violation_real_threads_verdict_used", true);
+            return Ok(r);
+        }
         for p in &h.panics {
             rep.violate(
                 "C17",
